@@ -38,7 +38,7 @@ Lemma move_frame : forall s w np nn,
   let s' := fst (move s w np nn) in
   nobj s' = nobj s /\ nwire s' = nwire s /\ nport s' = nport s /\ ochildren s' = ochildren s /\
   wsource s' = wsource s /\ wsinks s' = wsinks s /\ oprim s' = oprim s /\
-  pkind s' = pkind s /\ pparent s' = pparent s /\ pwire s' = pwire s.
+  pkind s' = pkind s /\ pparent s' = pparent s /\ pwire s' = pwire s /\ wbidir s' = wbidir s /\ wsources s' = wsources s.
 Proof.
   intros s w np nn. unfold move.
   destruct (negb _); [cbn; repeat split|]. destruct (negb _); [cbn; repeat split|].
@@ -70,20 +70,37 @@ Proof.
   inversion H; subst. right. cbn. repeat split; auto.
 Qed.
 
+(* the ways addIn / addOut / addInOut can end (stated without ever looking inside the successor state) *)
+Lemma add_port_cases : forall s k o n w s' out,
+  add_port s k o n w = (s', out) ->
+  (s' = s /\ out = BadRef) \/
+  (s' = s /\ out = Raise (CDriver w) /\ exists q, wsource s w = Some q) \/
+  out = Ok.
+Proof.
+  intros s k o n w s' out H. unfold add_port in H.
+  destruct (negb _); [injection H as E1 E2; left; auto|].
+  destruct (oprim s o && drives k && negb (wbidir s w) && is_some (wsource s w)) eqn:Hc.
+  - injection H as E1 E2. right; left. repeat split; auto.
+    apply andb_true_iff in Hc. destruct Hc as [_ Hc]. destruct (wsource s w); [eauto | discriminate].
+  - injection H as _ E2. right; right; auto.
+Qed.
+
 Lemma raise_unchanged : forall s o s' c, Inv s -> step s o = (s', Raise c) -> s' = s.
 Proof.
   intros s o s' c Hinv H.
   assert (MV : forall w np nn, move s w np nn = (s', Raise c) -> s' = s).
   { intros w np nn HM. apply move_cases in HM; auto. destruct HM as [[E _]|[E _]]; [auto|discriminate]. }
-  destruct o as [[p|] n prim|p n width|o n w|o n w|o n w|w n|w p|w p n]; cbn [step] in H; eauto.
+  destruct o as [[p|] n prim|p n width|p n width|o n w|o n w|o n w|w n|w p|w p n]; cbn [step] in H; eauto.
   - unfold new_logic in H. destruct (negb (p <? nobj s)); [inversion H; subst; auto|].
     destruct (tmem (ochildren s p) n); inversion H; subst; auto.
   - unfold new_logic in H. inversion H.
   - unfold new_wire in H. destruct (negb (p <? nobj s)); [inversion H; subst; auto|].
     destruct (tmem (owires s p) n); inversion H; subst; auto.
-  - unfold add_port in H. destruct (negb _); [inversion H; subst; auto|]. destruct (_ && _ && _); inversion H; subst; auto.
-  - unfold add_port in H. destruct (negb _); [inversion H; subst; auto|]. destruct (_ && _ && _); inversion H; subst; auto.
-  - unfold add_port in H. destruct (negb _); [inversion H; subst; auto|]. destruct (_ && _ && _); inversion H; subst; auto.
+  - unfold new_wire in H. destruct (negb (p <? nobj s)); [inversion H; subst; auto|].
+    destruct (tmem (owires s p) n); inversion H; subst; auto.
+  - apply add_port_cases in H. destruct H as [[E _]|[[E _]|E]]; auto; discriminate.
+  - apply add_port_cases in H. destruct H as [[E _]|[[E _]|E]]; auto; discriminate.
+  - apply add_port_cases in H. destruct H as [[E _]|[[E _]|E]]; auto; discriminate.
 Qed.
 
 (* ---------------------------------------------------------------- the conflicting call raises *)
@@ -102,19 +119,21 @@ Proof.
     destruct (Nat.ltb_spec p' (nobj s)); [|lia]. cbn [negb].
     unfold wire_conflict in Hwc. unfold holds_other. destruct (tget (owires s p') n') as [w'|] eqn:Ht; [|discriminate].
     destruct (Nat.eqb w' w); [discriminate|]. cbn [negb]. inversion Hwc; reflexivity. }
-  destruct o as [[p|] n prim|p n width|o n w|o n w|o n w|w n|w p|w p n]; cbn [step conflict_of valid_op] in *.
+  destruct o as [[p|] n prim|p n width|p n width|o n w|o n w|o n w|w n|w p|w p n]; cbn [step conflict_of valid_op] in *.
   - unfold new_logic. destruct (Nat.ltb_spec p (nobj s)); [|lia]. cbn [negb].
     destruct (tmem (ochildren s p) n); [inversion Hc; reflexivity | discriminate].
   - discriminate.
   - unfold new_wire. destruct (Nat.ltb_spec p (nobj s)); [|lia]. cbn [negb].
     destruct (tmem (owires s p) n); [inversion Hc; reflexivity | discriminate].
+  - unfold new_wire. destruct (Nat.ltb_spec p (nobj s)); [|lia]. cbn [negb].
+    destruct (tmem (owires s p) n); [inversion Hc; reflexivity | discriminate].
   - discriminate.
   - unfold add_port. destruct Hv as [Ho Hw].
     destruct (Nat.ltb_spec o (nobj s)); [|lia]. destruct (Nat.ltb_spec w (nwire s)); [|lia]. cbn [negb andb drives].
-    rewrite andb_true_r. destruct (oprim s o && is_some (wsource s w)); [inversion Hc; reflexivity | discriminate].
+    rewrite andb_true_r. destruct (oprim s o && negb (wbidir s w) && is_some (wsource s w)); [inversion Hc; reflexivity | discriminate].
   - unfold add_port. destruct Hv as [Ho Hw].
     destruct (Nat.ltb_spec o (nobj s)); [|lia]. destruct (Nat.ltb_spec w (nwire s)); [|lia]. cbn [negb andb drives].
-    rewrite andb_true_r. destruct (oprim s o && is_some (wsource s w)); [inversion Hc; reflexivity | discriminate].
+    rewrite andb_true_r. destruct (oprim s o && negb (wbidir s w) && is_some (wsource s w)); [inversion Hc; reflexivity | discriminate].
   - eapply (MV w None (Some n)); eauto. apply (i_wpar s Hinv); auto.
   - destruct Hv. eapply (MV w (Some p) None); eauto.
   - destruct Hv. eapply (MV w (Some p) (Some n)); eauto.
@@ -135,13 +154,14 @@ Proof.
       + cbn in HM. rewrite (post_del_free s w _ _ Hinv Hp Hpre) in HM. inversion HM.
       + exfalso. specialize (Hreg w Hw). unfold registered in Hreg. unfold tmem in Hm. rewrite Hreg in Hm. discriminate. }
   assert (AP : forall k o0 n w0, add_port s k o0 n w0 = (s', Raise c) -> names_existing s c).
-  { intros k o0 n w0 HA. unfold add_port in HA. destruct (negb _); [inversion HA|].
-    destruct (oprim s o0 && drives k && is_some (wsource s w0)) eqn:Hc; inversion HA; subst. cbn.
-    apply andb_true_iff in Hc. destruct Hc as [_ Hc]. destruct (wsource _ w0); [eauto | discriminate]. }
-  destruct o as [[p|] n prim|p n width|o n w|o n w|o n w|w n|w p|w p n]; cbn [step] in H; eauto.
+  { intros k o0 n w0 HA. apply add_port_cases in HA. destruct HA as [[_ E]|[[_ [E X]]|E]]; try discriminate.
+    injection E as E; subst c. exact X. }
+  destruct o as [[p|] n prim|p n width|p n width|o n w|o n w|o n w|w n|w p|w p n]; cbn [step] in H; eauto.
   - unfold new_logic in H. destruct (negb _); [inversion H|].
     destruct (tmem (ochildren s p) n) eqn:Hm; inversion H; subst. cbn. now apply tmem_true.
   - inversion H.
+  - unfold new_wire in H. destruct (negb _); [inversion H|].
+    destruct (tmem (owires s p) n) eqn:Hm; inversion H; subst. cbn. now apply tmem_true.
   - unfold new_wire in H. destruct (negb _); [inversion H|].
     destruct (tmem (owires s p) n) eqn:Hm; inversion H; subst. cbn. now apply tmem_true.
 Qed.
@@ -154,10 +174,11 @@ Proof.
   { intros. unfold add_port. destruct (negb _); [exact Ht|]. destruct (_ && _ && _); exact Ht. }
   assert (MV : forall w np nn, tget (ochildren (fst (move s w np nn)) p) k = Some c).
   { intros. destruct (move_frame s w np nn) as [_ [_ [_ [E _]]]]. rewrite E. exact Ht. }
-  destruct o as [[p0|] n0 prim|p0 n0 width|o n0 w|o n0 w|o n0 w|w n0|w p0|w p0 n0]; cbn [step]; auto.
+  destruct o as [[p0|] n0 prim|p0 n0 width|p0 n0 width|o n0 w|o n0 w|o n0 w|w n0|w p0|w p0 n0]; cbn [step]; auto.
   - unfold new_logic. destruct (negb _); [exact Ht|]. destruct (tmem _ _); [exact Ht|]. cbn.
     rewrite upd_other by lia. now apply tget_upd_tput_keep.
   - cbn. rewrite upd_other by lia. exact Ht.
+  - unfold new_wire. destruct (negb _); [exact Ht|]. destruct (tmem _ _); exact Ht.
   - unfold new_wire. destruct (negb _); [exact Ht|]. destruct (tmem _ _); exact Ht.
 Qed.
 
@@ -166,13 +187,15 @@ Proof.
   intros s o x q Hx Hs. unfold exec.
   assert (AP : forall kd o0 n w, wsource (fst (add_port s kd o0 n w)) x = Some q).
   { intros. unfold add_port. destruct (negb _); [exact Hs|].
-    destruct (oprim s o0 && drives kd && is_some (wsource s w)) eqn:Hc; [exact Hs|]. cbn.
+    destruct (oprim s o0 && drives kd && negb (wbidir s w) && is_some (wsource s w)) eqn:Hc; [exact Hs|]. cbn.
     unfold upd. destruct (Nat.eqb_spec x w) as [E|E]; [subst x|exact Hs].
     rewrite Hs in *. cbn in Hc. rewrite andb_true_r in Hc. rewrite Hc. reflexivity. }
   assert (MV : forall w np nn, wsource (fst (move s w np nn)) x = Some q).
   { intros. destruct (move_frame s w np nn) as [_ [_ [_ [_ [E _]]]]]. rewrite E. exact Hs. }
-  destruct o as [[p0|] n0 prim|p0 n0 width|o n0 w|o n0 w|o n0 w|w n0|w p0|w p0 n0]; cbn [step]; auto.
+  destruct o as [[p0|] n0 prim|p0 n0 width|p0 n0 width|o n0 w|o n0 w|o n0 w|w n0|w p0|w p0 n0]; cbn [step]; auto.
   - unfold new_logic. destruct (negb _); [exact Hs|]. destruct (tmem _ _); exact Hs.
+  - unfold new_wire. destruct (negb _); [exact Hs|]. destruct (tmem _ _); [exact Hs|]. cbn.
+    rewrite upd_other by lia. exact Hs.
   - unfold new_wire. destruct (negb _); [exact Hs|]. destruct (tmem _ _); [exact Hs|]. cbn.
     rewrite upd_other by lia. exact Hs.
 Qed.
@@ -189,10 +212,12 @@ Proof.
     apply tget_upd_tput_keep. unfold upd. destruct (Nat.eqb_spec p (wparent s w)) as [E|E]; [|exact Ht].
     rewrite tget_tdel. destruct (Z.eqb_spec k (wname s w)) as [E2|E2]; [|rewrite <- E; exact Ht].
     exfalso. apply Hne. unfold registered in Hr. rewrite <- E, <- E2 in Hr. congruence. }
-  destruct o as [[p0|] n0 prim|p0 n0 width|o n0 w|o n0 w|o n0 w|w n0|w p0|w p0 n0]; cbn [step subject_registered subject] in *; auto.
+  destruct o as [[p0|] n0 prim|p0 n0 width|p0 n0 width|o n0 w|o n0 w|o n0 w|w n0|w p0|w p0 n0]; cbn [step subject_registered subject] in *; auto.
   - unfold new_logic. destruct (negb _); [exact Ht|]. destruct (tmem _ _); [exact Ht|]. cbn.
     rewrite upd_other by lia. exact Ht.
   - cbn. rewrite upd_other by lia. exact Ht.
+  - unfold new_wire. destruct (negb _); [exact Ht|]. destruct (tmem _ _); [exact Ht|]. cbn.
+    now apply tget_upd_tput_keep.
   - unfold new_wire. destruct (negb _); [exact Ht|]. destruct (tmem _ _); [exact Ht|]. cbn.
     now apply tget_upd_tput_keep.
 Qed.
@@ -205,9 +230,10 @@ Proof.
   { intros. unfold add_port. destruct (negb _); [cbn; lia|]. destruct (_ && _ && _); cbn; lia. }
   assert (MV : forall w np nn, nobj s <= nobj (fst (move s w np nn)) /\ nwire s <= nwire (fst (move s w np nn))).
   { intros. destruct (move_frame s w np nn) as [E1 [E2 _]]. rewrite E1, E2. lia. }
-  destruct o as [[p0|] n0 prim|p0 n0 width|o n0 w|o n0 w|o n0 w|w n0|w p0|w p0 n0]; cbn [step]; auto.
+  destruct o as [[p0|] n0 prim|p0 n0 width|p0 n0 width|o n0 w|o n0 w|o n0 w|w n0|w p0|w p0 n0]; cbn [step]; auto.
   - unfold new_logic. destruct (negb _); [cbn; lia|]. destruct (tmem _ _); cbn; lia.
   - cbn. lia.
+  - unfold new_wire. destruct (negb _); [cbn; lia|]. destruct (tmem _ _); cbn; lia.
   - unfold new_wire. destruct (negb _); [cbn; lia|]. destruct (tmem _ _); cbn; lia.
 Qed.
 
